@@ -239,7 +239,96 @@ def job(item):
                 out["records"].append({"kind": "inconclusive", "tag": tag, "why": "solver unknown"})
         except (Untranslatable, Exception) as e:  # noqa
             out["records"].append({"kind": "inconclusive", "tag": tag, "why": f"{type(e).__name__}: {e}"[:140]})
+    # Q4 central moment / cumulant / tail-bound goals after the loop, through the real goal handlers, against the
+    # conversions of the independently derived limits of the first two moments
+    try:
+        g0 = next((g for g in goals if g.isidentifier()), None)
+        if g0 is not None and item.get("kinds", False):
+            out["records"] += goal_kinds(program, rb, ns, g0, I, out, pid, text)
+    except polar_iface.JobTimeout:
+        out["refusals"].append({"id": pid, "goal": "goal kinds", "type": "Timeout", "msg": "", "where": ""})
     return out
+
+
+def goal_kinds(program, rb, ns, g0, I, out, pid, text):
+    import contextlib
+    import io
+    import re
+    import sympy as sp
+    from cli.actions.goals_action import GoalsAction
+    from cli.common import get_moment_given_termination
+    from symengine import sympify as se
+    recs = []
+    lims = {}
+    with polar_iface.time_limit(40):
+        for k in (1, 2):
+            cm, _ = get_moment_given_termination(se(g0) ** k, {}, rb, ns, program)
+            gen, n0 = general_branch(sp.sympify(cm))
+            lims[k] = exp_poly_limit(gen, I, out["stats"], f"{pid}:kinds:{g0}**{k}")
+    if any(v is None or v == "oo" for v in lims.values()):
+        return recs
+    m1, m2 = sp.sympify(lims[1]), sp.sympify(lims[2])
+    a_up, a_lo = sp.Integer(3), sp.Integer(1)
+    expect = {"c2": m2 - m1 ** 2, "k2": m2 - m1 ** 2, "upper1": m1 / a_up, "upper2": m2 / a_up ** 2,
+              "lower": (m1 - a_lo) ** 2 / (m2 - 2 * a_lo * m1 + a_lo ** 2)}
+    got = {}
+    ga = GoalsAction(ns)
+    ga.initialize_program(program, rb)
+
+    def guarded(name, f):
+        try:
+            with polar_iface.time_limit(25):
+                return f()
+        except polar_iface.JobTimeout:
+            out["refusals"].append({"id": pid, "goal": name, "type": "Timeout", "msg": "", "where": ""})
+        except Exception as e:  # noqa
+            out["refusals"].append({"id": pid, "goal": f"{name}({g0}) --after_loop", **polar_iface.exc_info(e)})
+        return None
+    r = guarded("c2", lambda: ga.handle_central_moment_goal([2, se(g0)]))
+    if r is not None:
+        got["c2"] = r[0]
+    r = guarded("k2", lambda: ga.handle_cumulant_goal([2, se(g0)]))
+    if r is not None:
+        got["k2"] = r[0]
+
+    def printed(f):
+        buf = io.StringIO()
+        with contextlib.redirect_stdout(buf):
+            f()
+        return re.sub(r"\x1b\[[0-9;]*m", "", buf.getvalue())
+    txt = guarded("P(>=) <= ?", lambda: printed(lambda: ga.handle_tail_bound_upper_goal([se(g0), se(str(a_up))])))
+    if txt is not None:
+        for ln in txt.splitlines():
+            m = re.match(r"^\s*\((\d)\)\s+(.*)$", ln)
+            if m:
+                got[f"upper{m.group(1)}"] = m.group(2)
+    txt = guarded("P(>) >= ?", lambda: printed(lambda: ga.handle_tail_bound_lower_goal([se(g0), se(str(a_lo))])))
+    if txt is not None:
+        for ln in txt.splitlines():
+            m = re.match(r"^P\(.*\) >= (.*)$", ln)
+            if m:
+                got["lower"] = m.group(1)
+    for name, val in got.items():
+        tag = f"{pid}:{name}({g0}) after loop"
+        try:
+            val = sp.sympify(str(val)) if isinstance(val, str) else sp.sympify(val)
+            if val in (sp.oo, -sp.oo, sp.zoo, sp.nan) or expect[name] in (sp.zoo, sp.nan):
+                continue
+            t = Tr(sym=I.zv)
+            a, _ = t.tr(val)
+            b, _ = t.tr(sp.simplify(expect[name]))
+            v, model = smt.decide(list(I.solver.assertions()) + t.constraints() + [a != b], out["stats"], 30000, tag=tag)
+            out["checked"] += 1
+            out["kinds"] = out.get("kinds", 0) + 1
+            if v == "sat":
+                recs.append({"kind": "violation", "key": f"{pid}|{name}({g0})|after-loop", "tag": tag,
+                             "what": f"{name} goal of {g0} after the loop reported as {val}; from the limits E({g0}) = {m1}, E({g0}**2) = {m2} it is {sp.simplify(expect[name])}",
+                             "replay": {"text": text, "goal": f"{name}({g0})", "reported": str(val), "expected": str(expect[name])}})
+            elif v != "unsat":
+                recs.append({"kind": "inconclusive", "tag": tag, "why": "solver unknown"})
+        except (Untranslatable, Exception) as e:  # noqa
+            recs.append({"kind": "inconclusive", "tag": tag, "why": f"{type(e).__name__}: {e}"[:140]})
+    return recs
 
 
 def main():
@@ -251,9 +340,10 @@ def main():
             families.generated(run.quick, run.seed, count=(60 if run.quick else 600)):
         if "while true" not in text:
             progs.append((pid, text, [g for g in goals if g != "@vars"][:3]))
+    guard_ids = {p[0] for p in families.corpus("corpus_guard")}
     for pid, text, goals in progs:
         if goals:
-            items.append({"id": pid, "text": text, "goals": goals, "N": N, "goal_timeout": 30 if run.quick else 90})
+            items.append({"id": pid, "text": text, "goals": goals, "N": N, "goal_timeout": 30 if run.quick else 90, "kinds": pid in guard_ids or not run.quick})
     if run.args.only:
         items = [i for i in items if run.args.only in i["id"]]
     results = jobs.run_jobs(job, items, timeout=400 if run.quick else 1200)
